@@ -65,7 +65,7 @@ _c03_quick = set(_names("c03_arith_", ["add_int_int", "sub_int_int", "add_float_
                  _names("c03_bool_", ["bool_bool", "bool_null"]) +
                  ["c03_unary_neg_int", "c03_unary_bool", "c03_unary_null"] +
                  _names("c03_in_", ["int_int", "null_int", "int_null"]) +
-                 ["c03_fn_abs_int", "c03_subscript_len1", "c03_case_bool", "c03_cast_int_int", "c03_cast_int_float"] + _names("c03_select_filter_", ["bool", "null", "int"]))
+                 ["c03_fn_abs_int", "c03_case_bool", "c03_cast_int_int", "c03_cast_int_float"] + _names("c03_select_filter_", ["bool", "null", "int"]))
 
 _c03_all = (_names("c03_arith_", ["add_int_int", "sub_int_int", "mul_int_int", "div_int_int", "add_float_float", "sub_float_float",
                                   "null_null", "null_int", "int_null", "null_float", "float_null", "null_string", "bool_null", "null_timestamp", "interval_null",
@@ -313,7 +313,7 @@ PROPS["C09"] = dict(
                H("c03_arith_div_int_int", "execution", EX, shape="evaluate: INT / INT (divisor -16..16: zero divisor, MIN / -1)", timeout=900, cost=400, tier="thorough"),
                H("c03_unary_neg_int", "execution", EX, shape="evaluate: -INT", timeout=900, cost=30),
                H("c03_fn_abs_int", "execution", EX, shape="evaluate: abs(INT)", timeout=900, cost=40),
-               H("c03_subscript_len1", "execution", EX, shape="evaluate: a[i] for every i64 subscript, array of 1 element", timeout=900, cost=350, solo=True),
+               H("c03_subscript_len1", "execution", EX, shape="evaluate: a[i] for every i64 subscript, array of 1 element", tier="thorough", timeout=900, cost=350, solo=True),
                H("c09_fold_sum_int_overflow", "aggregate_execution", AG, shape="SUM over two full-range INTs", timeout=900, cost=120),
                H("c09_fold_avg_int_overflow", "aggregate_execution", AG, shape="AVG over two full-range INTs", timeout=900, cost=120),
                H("c04_fold_percentile_all_null", "aggregate_execution", AG, shape="PERCENTILE over a group whose argument is NULL on every row (empty value list)", timeout=900, cost=60),
